@@ -9,7 +9,9 @@ import Driver.Util
   str HEX(raw literal inside, UTF-8)           -> rejected | closed | open
   match T n <def>* Y t A n <pat>* V n <val>*   -> typed=b nodup=b crash=b acc=b ends=a0,fb,ft,…
     <def> ::= P | E cls n (name k type*)* | S n (name type)*
-    <pat> ::= t nfields k <pat>* | o nfields k (order <pat>)* | v cls name k <pat>* | i | w | r k <pat>*
+    <pat> ::= t nfields k <pat>* | o nfields k (order <pat>)* | v cls name k <pat>* | i name | w | r k <pat>*
+    ends: a<i>:<s> = arm i ran and the int-typed bound names (< 1000) of its pattern sum to s,
+          computed from the assignments of the *lowered* code (`execCode`)
     <val> ::= c cls name k <val>* | s k <val>* | p n
 -/
 namespace Driver.C03
@@ -89,7 +91,7 @@ def pDef : P Def
   | _ => none
 
 partial def pPat : P CPat
-  | "i" :: ts => some (.id, ts)
+  | "i" :: ts => (pNat ts).map (fun (n, ts) => (.id n, ts))
   | "w" :: ts => some (.wild, ts)
   | "t" :: ts =>
     match pNat ts with
@@ -171,10 +173,21 @@ def cxOf (defs : List Def) : Cx := fun cls =>
   | some (.enum _ vs) => vs.map (fun v => (v.1, v.2.length))
   | _ => []
 
-def showEnd : MatchEnd → String
-  | .arm i => "a" ++ toString i
-  | .fallback => "fb"
-  | .fault => "ft"
+def intOf : Val → Nat
+  | .prim k => k
+  | _ => 0
+
+/-- runs the lowered arms with assignments; agrees with `runMatch` by `exec_refines_eval` -/
+def runArms : List CPat → Nat → Val → String
+  | [], _, _ => "fb"
+  | p :: ps, i, v =>
+    match execCode (lowerPat p) v with
+    | none => "ft"
+    | some (true, d) =>
+      let ns := ((names p).filter (· < 1000)).eraseDups
+      let s := ns.foldl (fun acc x => acc + ((d.lookup x).map intOf).getD 0) 0
+      "a" ++ toString i ++ ":" ++ toString s
+    | some (false, _) => runArms ps (i + 1) v
 
 def b01 (b : Bool) : String := if b then "1" else "0"
 
@@ -208,8 +221,8 @@ def runMatchLine (ts : List String) : Option String :=
                     | some (some _) => "0"
                     | none => "fuel"
                   let ends := vals.map (fun v =>
-                    if hasTy sig v ty then showEnd (runMatch (lowerMatch arms) v) else "illtyped-value")
-                  some ("typed=" ++ b01 typed ++ " nodup=" ++ b01 (noDupFieldsL arms) ++
+                    if hasTy sig v ty then runArms arms 0 v else "illtyped-value")
+                  some ("typed=" ++ b01 typed ++ " binds=" ++ b01 (bindsOkL arms) ++
                     " crash=" ++ b01 (lowerCrashAll arms) ++ " acc=" ++ acc ++
                     " ends=" ++ (if ends.isEmpty then "-" else ",".intercalate ends))
             | _ => none
